@@ -1,9 +1,13 @@
 (* Props/C13.v — diff never reports a request-breaking change as compatible.
    PARTIAL: soundness is proved for the value-level comparisons (bounds, lengths, item counts, exclusivity,
    enum values) for all inputs, and for the translated compatibility policy; the known gaps of the analyser are
-   stated as REFUTED witnesses (replayed on the implementation: known findings); composition over the document
-   walk is exercised by the edit catalogue of the harness. *)
-From GS Require Import Base.Str Gen.GenDiffTables Tools.DiffTypes Tools.DiffSpec Tools.DiffModel Tools.DiffModelLemmas Tools.DiffSound Tools.DiffParams.
+   stated as REFUTED witnesses (replayed on the implementation: known findings).
+   Composition over the document walk (Tools/DiffDocSound.v): for ANY two documents and ANY fuel, if the analysis
+   returns a report, the report holds a Breaking entry — and `swagger diff` then exits non-zero — whenever an endpoint
+   is removed, a parameter is added as required or becomes required, a primitive parameter (number, string) rejects a
+   value it accepted, a response code or a response header is removed (the C13_doc_ theorems below). What remains exercised only: edits
+   below a body or response schema (properties, items, allOf), which the recursive compare_schema walks. *)
+From GS Require Import Base.Str Gen.GenDiffTables Tools.DiffTypes Tools.DiffSpec Tools.DiffModel Tools.DiffModelLemmas Tools.DiffSound Tools.DiffParams Tools.DiffReport Tools.DiffIdentity Tools.DiffDocSound.
 
 (* the policy tables regenerated from compatibility.go classify the request-narrowing codes as Breaking *)
 Lemma policy_request :
@@ -132,3 +136,102 @@ Theorem C13_effective_param_complete : forall pp op location p,
   In p op \/ In p pp -> p_in p = location -> assoc (p_name p) (get_params pp op location) <> None.
 Proof. exact effective_param_complete. Qed.
 Print Assumptions C13_effective_param_complete.
+
+(* ---------- the same clauses on whole documents: through the loops of SpecAnalyser.Analyse ---------- *)
+(* a Breaking entry makes the command exit non-zero (text report, no ignore file; with and without --break) *)
+Theorem C13_breaking_entry_exit_status : forall ds only_breaking, reports_breaking ds -> execute_fails false only_breaking ds [] = true.
+Proof. exact reports_breaking_exit. Qed.
+Print Assumptions C13_breaking_entry_exit_status.
+
+Theorem C13_doc_endpoint_removed : forall fuel a b ds k pit op,
+  analyse fuel a b = Ok ds -> In (k, (pit, op)) (url_methods a) -> find_um k (url_methods b) = None ->
+  options_deprecated pit || o_deprecated op = false -> reports_breaking ds.
+Proof. exact doc_endpoint_removed. Qed.
+Print Assumptions C13_doc_endpoint_removed.
+
+(* [k] is an operation (url, method) of both documents; params1/params2 are its effective parameters at [location]
+   (C13_effective_param: operation level over path level, identity by name and location) *)
+Theorem C13_doc_required_param_added : forall fuel a b ds, analyse fuel a b = Ok ds ->
+  forall location k pit1 pit2 op1 op2, In location param_locations ->
+  In (k, (pit2, op2)) (url_methods b) -> find_um k (url_methods a) = Some (pit1, op1) ->
+  forall n p2, In (n, p2) (get_params (pi_params pit2) (o_params op2) location) ->
+  assoc n (get_params (pi_params pit1) (o_params op1) location) = None -> p_required p2 = true -> reports_breaking ds.
+Proof. exact doc_required_param_added. Qed.
+Print Assumptions C13_doc_required_param_added.
+
+Theorem C13_doc_param_became_required : forall fuel a b ds, analyse fuel a b = Ok ds ->
+  forall location k pit1 pit2 op1 op2, In location param_locations ->
+  In (k, (pit2, op2)) (url_methods b) -> find_um k (url_methods a) = Some (pit1, op1) ->
+  forall n p1 p2, In (n, p2) (get_params (pi_params pit2) (o_params op2) location) ->
+  assoc n (get_params (pi_params pit1) (o_params op1) location) = Some p1 ->
+  p_required p1 = false -> p_required p2 = true -> reports_breaking ds.
+Proof. exact doc_param_became_required. Qed.
+Print Assumptions C13_doc_param_became_required.
+
+Theorem C13_doc_numeric_param_narrowed : forall fuel a b ds, analyse fuel a b = Ok ds ->
+  forall location k pit1 pit2 op1 op2, In location param_locations ->
+  In (k, (pit2, op2)) (url_methods b) -> find_um k (url_methods a) = Some (pit1, op1) ->
+  forall n p1 p2 t v, In (n, p2) (get_params (pi_params pit2) (o_params op2) location) ->
+  assoc n (get_params (pi_params pit1) (o_params op1) location) = Some p1 ->
+  si_typ (p_simple p1) = t -> si_typ (p_simple p2) = t -> si_format (p_simple p1) = si_format (p_simple p2) -> wideness t <> None ->
+  let x1 := si_vals (p_simple p1) in let x2 := si_vals (p_simple p2) in
+  ((v_xmax x1 = v_xmax x2 /\ v_xmin x1 = v_xmin x2 /\ sat_numeric x1 v = true /\ sat_numeric x2 v = false) \/
+   (v_xmax x1 = false /\ v_xmax x2 = true) \/ (v_xmin x1 = false /\ v_xmin x2 = true)) ->
+  reports_breaking ds.
+Proof. exact doc_numeric_param_narrowed. Qed.
+Print Assumptions C13_doc_numeric_param_narrowed.
+
+Theorem C13_doc_string_param_narrowed : forall fuel a b ds, analyse fuel a b = Ok ds ->
+  forall location k pit1 pit2 op1 op2, In location param_locations ->
+  In (k, (pit2, op2)) (url_methods b) -> find_um k (url_methods a) = Some (pit1, op1) ->
+  forall matches n p1 p2 len v, In (n, p2) (get_params (pi_params pit2) (o_params op2) location) ->
+  assoc n (get_params (pi_params pit1) (o_params op1) location) = Some p1 ->
+  si_typ (p_simple p1) = s "string" -> si_typ (p_simple p2) = s "string" -> si_format (p_simple p1) = si_format (p_simple p2) ->
+  let x1 := si_vals (p_simple p1) in let x2 := si_vals (p_simple p2) in
+  (v_enum x1 = [] -> v_enum x2 = []) ->
+  sat_string matches x1 len v = true -> sat_string matches x2 len v = false -> reports_breaking ds.
+Proof. exact doc_string_param_narrowed. Qed.
+Print Assumptions C13_doc_string_param_narrowed.
+
+(* a parameter that left its location (removed, or moved elsewhere) is listed — as a deletion, which the policy does
+   not count as request-breaking; when it is required at its new location, C13_doc_required_param_added applies there *)
+Theorem C13_doc_param_removed_reported : forall fuel a b ds, analyse fuel a b = Ok ds ->
+  forall location k pit1 pit2 op1 op2, In location param_locations ->
+  In (k, (pit2, op2)) (url_methods b) -> find_um k (url_methods a) = Some (pit1, op1) ->
+  forall n p, In (n, p) (get_params (pi_params pit1) (o_params op1) location) ->
+  has_key n (get_params (pi_params pit2) (o_params op2) location) = false ->
+  exists t, In (mk_diff (loc_add (param_root k location) (node_of n t)) (if p_required p then DeletedRequiredParam else DeletedOptionalParam) []) ds.
+Proof. exact doc_param_removed_reported. Qed.
+Print Assumptions C13_doc_param_removed_reported.
+
+Theorem C13_doc_response_removed : forall fuel a b ds, analyse fuel a b = Ok ds ->
+  forall k pit1 pit2 op1 op2, In (k, (pit2, op2)) (url_methods b) -> find_um k (url_methods a) = Some (pit1, op1) ->
+  forall c r1, In (c, r1) (o_responses op1) -> assocZ c (o_responses op2) = None -> reports_breaking ds.
+Proof. exact doc_response_removed. Qed.
+Print Assumptions C13_doc_response_removed.
+
+Theorem C13_doc_response_header_removed : forall fuel a b ds, analyse fuel a b = Ok ds ->
+  forall k pit1 pit2 op1 op2, In (k, (pit2, op2)) (url_methods b) -> find_um k (url_methods a) = Some (pit1, op1) ->
+  forall c r1 r2 n h1, In (c, r2) (o_responses op2) -> assocZ c (o_responses op1) = Some r1 ->
+  In (n, h1) (r_headers r1) -> has_key n (r_headers r2) = false -> reports_breaking ds.
+Proof. exact doc_response_header_removed. Qed.
+Print Assumptions C13_doc_response_header_removed.
+
+(* non-vacuity: two documents that meet the hypotheses of the narrowed-parameter clause; the analysis returns and
+   the report holds the Breaking entry *)
+Definition doc_lim (mx : Z) (req : bool) : swagger :=
+  {| sw_consumes := None; sw_produces := None; sw_schemes := None; sw_host := []; sw_basepath := []; sw_info_desc := [];
+     sw_paths := [(s "/pets", {| pi_params := [];
+        pi_ops := [(s "get", {| o_tags := None; o_desc := []; o_deprecated := false;
+            o_params := [{| p_name := s "limit"; p_in := s "query"; p_required := req; p_desc := []; p_schema := None;
+                            p_simple := Simple (s "integer") (s "int32") [] false DNone DNone
+                              {| v_max := Some mx; v_min := None; v_xmax := false; v_xmin := false; v_maxlen := None; v_minlen := None;
+                                 v_maxitems := None; v_minitems := None; v_pattern := []; v_enum := [] |} None |}];
+            o_responses := [(200%Z, {| r_desc := s "ok"; r_schema := None; r_headers := [] |})] |})] |})];
+     sw_defs := [] |}.
+Example C13_doc_nonvacuous :
+  exists ds, analyse 3 (doc_lim 100 false) (doc_lim 50 false) = Ok ds /\ has_breaking ds = true /\
+             execute_fails false false ds [] = true /\
+  exists ds', analyse 3 (doc_lim 100 false) (doc_lim 100 true) = Ok ds' /\ has_breaking ds' = true.
+Proof. eexists. split; [vm_compute; reflexivity|]. split; [vm_compute; reflexivity|]. split; [vm_compute; reflexivity|].
+  eexists. split; vm_compute; reflexivity. Qed.
